@@ -119,6 +119,24 @@ def run(ctx):
     ctx.floor('G-LIT', 50)
 
 
+def _sorted_walk(fnode, mapname):
+    """the loop that yields walks the keys of the map in ascending order: `for k in sorted(M)` / `sorted(M.keys())`, or a list of
+    the keys sorted in place before the loop"""
+    keys = ('%s' % mapname, '%s.keys()' % mapname, 'list(%s)' % mapname, 'list(%s.keys())' % mapname)
+    for lp in ast.walk(fnode):
+        if not (isinstance(lp, ast.For) and any(isinstance(y, ast.Yield) for y in ast.walk(lp))):
+            continue
+        it = lp.iter
+        if isinstance(it, ast.Call) and isinstance(it.func, ast.Name) and it.func.id == 'sorted' and len(it.args) == 1 and not it.keywords and U(it.args[0]) in keys:
+            return True
+        if isinstance(it, ast.Name):
+            src = [U(st) for st in ast.walk(fnode) if isinstance(st, ast.stmt)]
+            if any(src_st in src for src_st in ('%s = list(%s.keys())' % (it.id, mapname), '%s = list(%s)' % (it.id, mapname))) and '%s.sort()' % it.id in src and \
+                    src.index('%s.sort()' % it.id) < src.index(U(lp)):
+                return True
+    return False
+
+
 def check_entries(ctx, w):
     for attr, enum_name, rows in (('Dwarf_loclists_entries', 'ENUM_DW_LLE', D.LLE), ('Dwarf_rnglists_entries', 'ENUM_DW_RLE', D.RLE)):
         enum = w.table('dwarf/enums.py', enum_name)
@@ -331,7 +349,7 @@ def check_enum(ctx, w):
     src = U(f.node)
     ctx.ob('E-i', f.construct, 'visits the DW_AT_ranges offsets of units of the matching version, sorted',
            "cu_map = {die.attributes['DW_AT_ranges'].value: cu for cu in self._dwarfinfo.iter_CUs() for die in cu.iter_DIEs() "
-           "if 'DW_AT_ranges' in die.attributes and (cu['version'] >= 5) == ver5}" in src and 'all_offsets.sort()' in src and
+           "if 'DW_AT_ranges' in die.attributes and (cu['version'] >= 5) == ver5}" in src and _sorted_walk(f.node, 'cu_map') and
            'yield self.get_range_list_at_offset(offset, cu_map[offset])' in src)
     for mod, cls, hdr, di in ((LL, 'LocationLists', 'Dwarf_loclists_CU_header', 'dwarfinfo'), (RG, 'RangeLists', 'Dwarf_rnglists_CU_header', '_dwarfinfo')):
         f = w.model.func(mod, cls + '.iter_CUs')
